@@ -415,7 +415,32 @@ C08(scn, obs) ==
       \cup (IF ClientCanon(obs.cl) = ClientCanon(obs.ref.cl) THEN {} ELSE {"C08.ClientSeesSameResponse"})
       \cup (IF obs.ret.panic = obs.ref.ret.panic THEN {} ELSE {"C08.SamePanic"})
 
+(***************************************************************************)
+(* C19: GET is accepted and issued only for side-effect-free methods.      *)
+(***************************************************************************)
+StableCodec(c) == c \in {"proto", "json"}
+ClientIsGet(scn) == scn.cl.form = "connect_get" \/ (scn.cl.form = "rest" /\ MethodInfo(scn.cl.method).restget)
+
+C19(scn, obs) ==
+    LET mi == MethodInfo(scn.cl.method) IN
+    (IF scn.cl.form = "connect_get" /\ ~mi.nse THEN
+        (IF obs.ret.n = 0 THEN {} ELSE {"C19.GetRefusedForMethodWithSideEffects"})
+        \cup (IF obs.cl.status = 405 THEN {} ELSE {"C19.Refusal405"})
+        \cup (IF "POST" \in Range(obs.cl.allow) THEN {} ELSE {"C19.AllowNamesPost"})
+     ELSE {})
+    \cup (IF Dispatched(obs) /\ TheDisp(obs).kind = "service" /\ ~TheDisp(obs).same THEN
+            LET d == TheDisp(obs) IN
+            (IF d.http = "GET" /\ d.proto = "connect" =>
+                   /\ ClientIsGet(scn) /\ mi.nse /\ StableCodec(d.codec)
+                   /\ (obs.maxget = 0 \/ d.urllen <= obs.maxget)
+                   /\ d.form = "connect_get"
+             THEN {} ELSE {"C19.GetIssuedOnlyWhenAllHold"})
+            \cup (IF d.proto = "connect" /\ d.http # "GET" /\ mi.stream = "unary" =>
+                      (d.http = "POST" /\ d.form = "connect_post" /\ d.query = "none" /\ (scn.hd.noread \/ Len(d.frames) = 1))
+                  THEN {} ELSE {"C19.OtherwisePostWithBody"})
+          ELSE {})
+
 Judge(scn, obs) ==
     C01(scn, obs) \cup C02(scn, obs) \cup C03(scn, obs) \cup C04(scn, obs) \cup C05(scn, obs)
-    \cup C08(scn, obs) \cup C09(scn, obs) \cup C11(scn, obs) \cup C13(scn, obs) \cup C18(scn, obs)
+    \cup C08(scn, obs) \cup C09(scn, obs) \cup C11(scn, obs) \cup C13(scn, obs) \cup C18(scn, obs) \cup C19(scn, obs)
 =============================================================================
